@@ -239,15 +239,17 @@ func relayout(rng *rand.Rand, format string, text []byte) ([]byte, []string) {
 		if rng.Intn(2) == 0 {
 			ops = append(ops, "blank lines")
 			var out [][]byte
+			// a blank line is an empty line or (blank line + trailing whitespace) one holding only blanks
+			blank := func() []byte { return []byte([]string{"\n", "\n", " \n", "\t\n", "  \t \n"}[rng.Intn(5)]) }
 			for i, l := range lines {
 				ok := format == "fasta" || i%4 == 0
 				if ok && rng.Intn(3) == 0 {
-					out = append(out, []byte("\n"))
+					out = append(out, blank())
 				}
 				out = append(out, l)
 			}
 			if rng.Intn(2) == 0 {
-				out = append(out, []byte("\n"))
+				out = append(out, blank())
 			}
 			lines = out
 		}
